@@ -1,15 +1,20 @@
 (** C10 - the mutating operations of wtxmgr (tx.go, unconfirmed.go, db.go)
     transcribed as programs of the fault language.  Bucket and key layout are
     abstract (integers instead of byte strings), but every Put / Delete /
-    CreateBucketIfNotExists call of the Go code appears here as one [Write], in
-    the same order and under the same conditions, so that [writes op s] is the
-    number of mutating calls the real operation makes from the corresponding
-    state.  Definitions only. *)
+    CreateBucket(IfNotExists) call of the Go code appears here as one [Write],
+    in the same order and under the same conditions, and EVERY CALL whose
+    error may stem from such a write appears as a [Call] carrying the site id
+    Generated/ErrFlow.v lists for it ("wtxmgr:<function>><callee>"): one Coq
+    definition per Go function, one [call] per call site.  What happens to an
+    error at a site is therefore read from the regenerated table, not assumed.
+    Definitions only. *)
 From stdpp Require Import gmap.
-From Coq Require Import ZArith List.
+From Coq Require Import ZArith List String.
 From Verif Require Import Fault.Fault.
 Import ListNotations.
+Local Open Scope string_scope.
 Local Open Scope Z_scope.
+Local Open Scope list_scope.
 
 (** Transaction content, as the generator's universe gives it.  [tx_ins]
     lists EVERY TxIn of the wire transaction (for a coinbase: the null
@@ -24,7 +29,7 @@ Record txd := {
 Definition universe := gmap Z txd.
 
 (** buckets of the wtxmgr namespace *)
-Definition bRoot := 0.            (* root keys: [0] = mined balance *)
+Definition bRoot := 0.            (* root keys: [0] = mined balance, [1] version, [2] creation date *)
 Definition bBlocks := 1.          (* [h] -> b :: time :: txids *)
 Definition bTxRecords := 2.       (* [t;h;b] -> [t] *)
 Definition bCredits := 3.         (* [t;h;b;i] -> [amt; spent; change] *)
@@ -34,6 +39,7 @@ Definition bUnmined := 6.         (* [t] -> [t] *)
 Definition bUnminedCredits := 7.  (* [t;i] -> [amt; change] *)
 Definition bUnminedInputs := 8.   (* [pt;pi] -> unmined spenders *)
 Definition bLocked := 9.          (* [t;i] -> [lock id; expiry] *)
+Definition bLabels := 10.         (* [t] -> [label id] *)
 
 (** error codes of the operations themselves *)
 Definition eInput := 10.
@@ -42,13 +48,17 @@ Definition eFuel := 12.
 Definition eUnknownOutput := 13.
 Definition eAlreadyLocked := 14.
 Definition eUnlockNotAllowed := 15.
+Definition eEmptyLabel := 16.
+Definition eLabelTooLong := 17.
+Definition eAlreadyExists := 18.
 
-(** createStore: version/date/balance keys and the nine buckets *)
+Definition store_buckets : list Z :=
+  [bBlocks; bTxRecords; bCredits; bDebits; bUnspent; bUnmined; bUnminedCredits; bUnminedInputs; bLocked].
+
+(** what createStore leaves: version / date / balance keys and the nine buckets *)
 Definition tx_store_init : kv :=
-  <[bRoot := {[ [0] := [0] ]}]>
-  (fold_right (fun b s => <[b := ∅]> s) ∅
-     [bBlocks; bTxRecords; bCredits; bUnspent; bDebits; bUnmined; bUnminedCredits;
-      bUnminedInputs; bLocked]).
+  <[bRoot := {[ [0] := [0]; [1] := []; [2] := [] ]}]>
+  (fold_right (fun b s => <[b := ∅]> s) ∅ store_buckets).
 
 Definition get_balance : prog Z :=
   v <- get bRoot [0] ;; Ret (hd 0 (default [] v)).
@@ -61,67 +71,104 @@ Definition tx_known (t : Z) : prog bool :=
   u <- get bUnmined [t] ;;
   (match u with Some _ => Ret true | None => latest_tx_record t end).
 
-(** db.go putRawUnminedInput: read the spender list, append, Put *)
-Definition put_unmined_input (op : key) (t : Z) : prog unit :=
-  v <- get bUnminedInputs op ;; put bUnminedInputs op (default [] v ++ [t]).
+(** ** db.go: one definition per put* / delete* helper *)
 
-(** db.go deleteRawUnminedInput: nothing when the list is empty; Delete when
-    the filtered list is empty; Put otherwise *)
-Definition delete_unmined_input (op : key) (t : Z) : prog unit :=
+Definition put_mined_balance (v : Z) : prog unit :=
+  call "wtxmgr:putMinedBalance>db.Put" (put bRoot [0] [v]).
+Definition put_raw_block_record (k : key) (v : val) : prog unit :=
+  call "wtxmgr:putRawBlockRecord>db.Put" (put bBlocks k v).
+Definition put_block_record (h : Z) (v : val) : prog unit :=
+  call "wtxmgr:putBlockRecord>putRawBlockRecord" (put_raw_block_record [h] v).
+Definition delete_block_record (h : Z) : prog unit :=
+  call "wtxmgr:deleteBlockRecord>db.Delete" (del bBlocks [h]).
+Definition put_tx_record (k : key) (v : val) : prog unit :=
+  call "wtxmgr:putTxRecord>db.Put" (put bTxRecords k v).
+Definition delete_tx_record (k : key) : prog unit :=
+  call "wtxmgr:deleteTxRecord>db.Delete" (del bTxRecords k).
+Definition put_raw_credit (k : key) (v : val) : prog unit :=
+  call "wtxmgr:putRawCredit>db.Put" (put bCredits k v).
+Definition put_unspent_credit (k : key) (v : val) : prog unit :=
+  call "wtxmgr:putUnspentCredit>putRawCredit" (put_raw_credit k v).
+Definition spend_val (v : val) : val :=
+  match v with amt :: _ :: rest => amt :: 1 :: rest | _ => [0; 1; 0] end.
+Definition unspend_val (v : val) : val :=
+  match v with amt :: _ :: rest => amt :: 0 :: rest | _ => v end.
+(** spendCredit: read the credit, write it back marked spent; result = amount *)
+Definition spend_credit (ck : key) : prog Z :=
+  cv <- get bCredits ck ;;
+  call "wtxmgr:spendCredit>putRawCredit" (put_raw_credit ck (spend_val (default [] cv))) ;;;
+  Ret (hd 0 (default [] cv)).
+(** unspendRawCredit: nothing when the credit is gone; result = amount (0 then) *)
+Definition unspend_raw_credit (ck : key) : prog Z :=
+  cv <- get bCredits ck ;;
+  (match cv with
+   | Some v => call "wtxmgr:unspendRawCredit>db.Put" (put bCredits ck (unspend_val v)) ;;; Ret (hd 0 v)
+   | None => Ret 0
+   end).
+Definition delete_raw_credit (k : key) : prog unit :=
+  call "wtxmgr:deleteRawCredit>db.Delete" (del bCredits k).
+Definition put_unspent (k : key) (v : val) : prog unit :=
+  call "wtxmgr:putUnspent>db.Put" (put bUnspent k v).
+Definition put_raw_unspent (k : key) (v : val) : prog unit :=
+  call "wtxmgr:putRawUnspent>db.Put" (put bUnspent k v).
+Definition delete_raw_unspent (k : key) : prog unit :=
+  call "wtxmgr:deleteRawUnspent>db.Delete" (del bUnspent k).
+Definition put_debit (k : key) (v : val) : prog unit :=
+  call "wtxmgr:putDebit>db.Put" (put bDebits k v).
+Definition delete_raw_debit (k : key) : prog unit :=
+  call "wtxmgr:deleteRawDebit>db.Delete" (del bDebits k).
+Definition put_raw_unmined (t : Z) : prog unit :=
+  call "wtxmgr:putRawUnmined>db.Put" (put bUnmined [t] [t]).
+Definition delete_raw_unmined (t : Z) : prog unit :=
+  call "wtxmgr:deleteRawUnmined>db.Delete" (del bUnmined [t]).
+Definition put_raw_unmined_credit (k : key) (v : val) : prog unit :=
+  call "wtxmgr:putRawUnminedCredit>db.Put" (put bUnminedCredits k v).
+Definition delete_raw_unmined_credit (k : key) : prog unit :=
+  call "wtxmgr:deleteRawUnminedCredit>db.Delete" (del bUnminedCredits k).
+
+(** putRawUnminedInput: read the spender list, append, Put *)
+Definition put_raw_unmined_input (op : key) (t : Z) : prog unit :=
+  v <- get bUnminedInputs op ;;
+  call "wtxmgr:putRawUnminedInput>db.Put" (put bUnminedInputs op (default [] v ++ [t])).
+
+(** deleteRawUnminedInput: nothing when the list is empty; Delete when the
+    filtered list is empty; Put otherwise *)
+Definition delete_raw_unmined_input (op : key) (t : Z) : prog unit :=
   v <- get bUnminedInputs op ;;
   (match v with
    | None | Some [] => Ret tt
    | Some l =>
      match filter (fun x => negb (x =? t)) l with
-     | [] => del bUnminedInputs op
-     | l' => put bUnminedInputs op l'
+     | [] => call "wtxmgr:deleteRawUnminedInput>db.Delete" (del bUnminedInputs op)
+     | l' => call "wtxmgr:deleteRawUnminedInput>db.Put" (put bUnminedInputs op l')
      end
    end).
 
-(** unconfirmed.go insertMemPoolTx; result: "already recorded" *)
+(** lockOutput / unlockOutput *)
+Definition lock_output_db (op : key) (v : val) : prog unit :=
+  call "wtxmgr:lockOutput>db.CreateBucketIfNotExists" (create_bucket_if_not_exists bLocked) ;;;
+  call "wtxmgr:lockOutput>db.Put" (put bLocked op v).
+Definition unlock_output (op : key) : prog unit :=
+  hb <- has_bucket bLocked ;;
+  (if hb then call "wtxmgr:unlockOutput>db.Delete" (del bLocked op) else Ret tt).
+
+(** ** unconfirmed.go *)
+
+(** insertMemPoolTx; result: "already recorded" (ErrDuplicateTx, turned into
+    `true, nil` by InsertTxCheckIfExists) *)
 Definition insert_mempool (t : Z) (d : txd) : prog bool :=
   known <- tx_known t ;;
   (if known then Ret true else
    unspent <- Read (fun s => existsb (fun i => isSome (lookup2 s bUnspent [t; i])) (indices (tx_outs d))) ;;
    (if unspent then Ret false else
-    put bUnmined [t] [t] ;;;
-    for_each (tx_ins d) (fun op => put_unmined_input [fst op; snd op] t) ;;;
+    call "wtxmgr:(*Store).insertMemPoolTx>putRawUnmined" (put_raw_unmined t) ;;;
+    for_each (tx_ins d) (fun op =>
+      call "wtxmgr:(*Store).insertMemPoolTx>putRawUnminedInput" (put_raw_unmined_input [fst op; snd op] t)) ;;;
     Ret false)).
 
-(** tx.go addCredit *)
-Definition add_credit (t : Z) (d : txd) (blk : option (Z * Z)) (i : Z) (chg : bool) : prog unit :=
-  match nth_error (tx_outs d) (Z.to_nat i) with
-  | None => Fail eInput
-  | Some amt =>
-    match blk with
-    | None =>
-      v <- get bUnminedCredits [t; i] ;;
-      (match v with
-       | Some _ => Ret tt
-       | None =>
-         mined <- latest_tx_record t ;;
-         (if mined then Ret tt else put bUnminedCredits [t; i] [amt; b2z chg])
-       end)
-    | Some (h, b) =>
-      v <- get bCredits [t; h; b; i] ;;
-      (match v with
-       | Some _ => Ret tt
-       | None =>
-         put bCredits [t; h; b; i] [amt; 0; b2z chg] ;;;
-         bal <- get_balance ;;
-         put bRoot [0] [bal + amt] ;;;
-         put bUnspent [t; i] [h; b]
-       end)
-    end
-  end.
-
-(** db.go unlockOutput: the bucket may be missing; otherwise one Delete *)
-Definition unlock_output (op : key) : prog unit :=
-  hb <- has_bucket bLocked ;; (if hb then del bLocked op else Ret tt).
-
-(** unconfirmed.go removeConflict (recursion over the unmined spend graph,
-    bounded by fuel; the content of a spender is read back from its record,
-    here: looked up in the universe) *)
+(** removeConflict (recursion over the unmined spend graph, bounded by fuel;
+    the content of a spender is read back from its record, here: looked up in
+    the universe) *)
 Fixpoint remove_conflict (U : universe) (fuel : nat) (r : Z) : prog unit :=
   match fuel with
   | O => Fail eFuel
@@ -133,34 +180,71 @@ Fixpoint remove_conflict (U : universe) (fuel : nat) (r : Z) : prog unit :=
         sp <- get bUnminedInputs [r; i] ;;
         for_each (default [] sp) (fun x =>
           v <- get bUnmined [x] ;;
-          (match v with None => Ret tt | Some _ => remove_conflict U fuel' x end)) ;;;
-        del bUnminedCredits [r; i]) ;;;
-      for_each (tx_ins d) (fun op => delete_unmined_input [fst op; snd op] r) ;;;
-      del bUnmined [r]
+          (match v with
+           | None => Ret tt
+           | Some _ => call "wtxmgr:(*Store).removeConflict>(*Store).removeConflict" (remove_conflict U fuel' x)
+           end)) ;;;
+        call "wtxmgr:(*Store).removeConflict>deleteRawUnminedCredit" (delete_raw_unmined_credit [r; i])) ;;;
+      for_each (tx_ins d) (fun op =>
+        call "wtxmgr:(*Store).removeConflict>deleteRawUnminedInput" (delete_raw_unmined_input [fst op; snd op] r)) ;;;
+      call "wtxmgr:(*Store).removeConflict>deleteRawUnmined" (delete_raw_unmined r)
     end
   end.
 
-(** unconfirmed.go removeDoubleSpends *)
+(** removeDoubleSpends *)
 Definition remove_double_spends (U : universe) (fuel : nat) (t : Z) (d : txd) : prog unit :=
   for_each (tx_ins d) (fun op =>
     sp <- get bUnminedInputs [fst op; snd op] ;;
     for_each (default [] sp) (fun x =>
       if x =? t then Ret tt else
       (v <- get bUnmined [x] ;;
-       (match v with None => Ret tt | Some _ => remove_conflict U fuel x end)))).
+       (match v with
+        | None => Ret tt
+        | Some _ => call "wtxmgr:(*Store).removeDoubleSpends>(*Store).removeConflict" (remove_conflict U fuel x)
+        end)))).
 
-(** tx.go deleteUnminedTx *)
+(** ** tx.go *)
+
+(** addCredit *)
+Definition add_credit_inner (t : Z) (amt : Z) (blk : option (Z * Z)) (i : Z) (chg : bool) : prog unit :=
+  match blk with
+  | None =>
+    v <- get bUnminedCredits [t; i] ;;
+    (match v with
+     | Some _ => Ret tt
+     | None =>
+       mined <- latest_tx_record t ;;
+       (if mined then Ret tt else
+        call "wtxmgr:(*Store).addCredit>putRawUnminedCredit" (put_raw_unmined_credit [t; i] [amt; b2z chg]))
+     end)
+  | Some (h, b) =>
+    v <- get bCredits [t; h; b; i] ;;
+    (match v with
+     | Some _ => Ret tt
+     | None =>
+       call "wtxmgr:(*Store).addCredit>putRawCredit" (put_raw_credit [t; h; b; i] [amt; 0; b2z chg]) ;;;
+       bal <- get_balance ;;
+       call "wtxmgr:(*Store).addCredit>putMinedBalance" (put_mined_balance (bal + amt)) ;;;
+       call "wtxmgr:(*Store).addCredit>putUnspent" (put_unspent [t; i] [h; b])
+     end)
+  end.
+
+(** AddCredit *)
+Definition add_credit (t : Z) (d : txd) (blk : option (Z * Z)) (i : Z) (chg : bool) : prog unit :=
+  match nth_error (tx_outs d) (Z.to_nat i) with
+  | None => Fail eInput
+  | Some amt => call "wtxmgr:(*Store).AddCredit>(*Store).addCredit" (add_credit_inner t amt blk i chg)
+  end.
+
+(** deleteUnminedTx *)
 Definition delete_unmined_tx (t : Z) (d : txd) : prog unit :=
-  for_each (tx_ins d) (fun op => delete_unmined_input [fst op; snd op] t) ;;;
-  for_each (indices (tx_outs d)) (fun i => del bUnminedCredits [t; i]) ;;;
-  del bUnmined [t].
+  for_each (tx_ins d) (fun op =>
+    call "wtxmgr:(*Store).deleteUnminedTx>deleteRawUnminedInput" (delete_raw_unmined_input [fst op; snd op] t)) ;;;
+  for_each (indices (tx_outs d)) (fun i =>
+    call "wtxmgr:(*Store).deleteUnminedTx>deleteRawUnminedCredit" (delete_raw_unmined_credit [t; i])) ;;;
+  call "wtxmgr:(*Store).deleteUnminedTx>deleteRawUnmined" (delete_raw_unmined t).
 
-Definition spend_val (v : val) : val :=
-  match v with amt :: _ :: rest => amt :: 1 :: rest | _ => [0; 1; 0] end.
-Definition unspend_val (v : val) : val :=
-  match v with amt :: _ :: rest => amt :: 0 :: rest | _ => v end.
-
-(** tx.go updateMinedBalance *)
+(** updateMinedBalance *)
 Definition update_mined_balance (t : Z) (d : txd) (h b : Z) : prog unit :=
   bal <- get_balance ;;
   nb1 <- fold_prog (indexed (tx_ins d)) bal (fun nb e =>
@@ -169,11 +253,9 @@ Definition update_mined_balance (t : Z) (d : txd) (h b : Z) : prog unit :=
            (match u with
             | Some [ch; cb] =>
               let ck := [pt; ch; cb; pi] in
-              cv <- get bCredits ck ;;
-              let amt := hd 0 (default [] cv) in
-              put bCredits ck (spend_val (default [] cv)) ;;;
-              put bDebits [t; h; b; i] (amt :: ck) ;;;
-              del bUnspent [pt; pi] ;;;
+              amt <- Call "wtxmgr:(*Store).updateMinedBalance>spendCredit" (spend_credit ck) 0 ;;
+              call "wtxmgr:(*Store).updateMinedBalance>putDebit" (put_debit [t; h; b; i] (amt :: ck)) ;;;
+              call "wtxmgr:(*Store).updateMinedBalance>deleteRawUnspent" (delete_raw_unspent [pt; pi]) ;;;
               Ret (nb - amt)
             | _ => Ret nb
             end)) ;;
@@ -181,43 +263,62 @@ Definition update_mined_balance (t : Z) (d : txd) (h b : Z) : prog unit :=
            v <- get bUnminedCredits [t; i] ;;
            (match v with
             | Some [amt; chg] =>
-              put bCredits [t; h; b; i] [amt; 0; chg] ;;;
-              put bUnspent [t; i] [h; b] ;;;
+              call "wtxmgr:(*Store).updateMinedBalance>putUnspentCredit"
+                   (put_unspent_credit [t; h; b; i] [amt; 0; chg]) ;;;
+              call "wtxmgr:(*Store).updateMinedBalance>putUnspent" (put_unspent [t; i] [h; b]) ;;;
               Ret (nb + amt)
             | _ => Ret nb
             end)) ;;
-  (if nb2 =? bal then Ret tt else put bRoot [0] [nb2]).
+  (if nb2 =? bal then Ret tt
+   else call "wtxmgr:(*Store).updateMinedBalance>putMinedBalance" (put_mined_balance nb2)).
 
-(** tx.go insertMinedTx; result: "already recorded" *)
+(** insertMinedTx; result: "already recorded" *)
 Definition insert_mined (U : universe) (fuel : nat) (t : Z) (d : txd) (h b bt : Z) : prog bool :=
   ex <- get bTxRecords [t; h; b] ;;
   (match ex with
    | Some _ => Ret true
    | None =>
      bv <- get bBlocks [h] ;;
-     put bBlocks [h] (match bv with None => [b; bt; t] | Some v => v ++ [t] end) ;;;
-     put bTxRecords [t; h; b] [t] ;;;
-     update_mined_balance t d h b ;;;
+     (match bv with
+      | None => call "wtxmgr:(*Store).insertMinedTx>putBlockRecord" (put_block_record h [b; bt; t])
+      | Some v => call "wtxmgr:(*Store).insertMinedTx>putRawBlockRecord" (put_raw_block_record [h] (v ++ [t]))
+      end) ;;;
+     call "wtxmgr:(*Store).insertMinedTx>putTxRecord" (put_tx_record [t; h; b] [t]) ;;;
+     call "wtxmgr:(*Store).insertMinedTx>(*Store).updateMinedBalance" (update_mined_balance t d h b) ;;;
      um <- get bUnmined [t] ;;
-     (match um with Some _ => delete_unmined_tx t d | None => Ret tt end) ;;;
-     remove_double_spends U fuel t d ;;;
-     for_each (tx_ins d) (fun op => unlock_output [fst op; snd op]) ;;;
+     (match um with
+      | Some _ => call "wtxmgr:(*Store).insertMinedTx>(*Store).deleteUnminedTx" (delete_unmined_tx t d)
+      | None => Ret tt
+      end) ;;;
+     call "wtxmgr:(*Store).insertMinedTx>(*Store).removeDoubleSpends" (remove_double_spends U fuel t d) ;;;
+     for_each (tx_ins d) (fun op =>
+       call "wtxmgr:(*Store).insertMinedTx>unlockOutput" (unlock_output [fst op; snd op])) ;;;
      Ret false
    end).
 
+(** InsertTxCheckIfExists / InsertTx *)
+Definition insert_tx_check (U : universe) (fuel : nat) (t : Z) (d : txd) (blk : option (Z * Z * Z)) : prog bool :=
+  match blk with
+  | None => Call "wtxmgr:(*Store).InsertTxCheckIfExists>(*Store).insertMemPoolTx" (insert_mempool t d) false
+  | Some (h, b, bt) =>
+    Call "wtxmgr:(*Store).InsertTxCheckIfExists>(*Store).insertMinedTx" (insert_mined U fuel t d h b bt) false
+  end.
+Definition insert_tx (U : universe) (fuel : nat) (t : Z) (d : txd) (blk : option (Z * Z * Z)) : prog unit :=
+  Call "wtxmgr:(*Store).InsertTx>(*Store).InsertTxCheckIfExists" (insert_tx_check U fuel t d blk) false ;;; Ret tt.
+
+Definition blk_of (blk : option (Z * Z * Z)) : option (Z * Z) :=
+  match blk with None => None | Some (h, b, _) => Some (h, b) end.
+
 (** wallet.addRelevantTx as the harness drives it: insert, stop when the
-    transaction was already recorded, otherwise add every credit *)
+    transaction was already recorded, otherwise add every credit.  (The
+    harness's own calls of the API are sites with the empty name.) *)
 Definition relevant_tx (U : universe) (fuel : nat) (t : Z) (blk : option (Z * Z * Z)) : prog unit :=
   match U !! t with
   | None => Fail eData
   | Some d =>
-    ex <- (match blk with
-           | None => insert_mempool t d
-           | Some (h, b, bt) => insert_mined U fuel t d h b bt
-           end) ;;
+    ex <- Call "" (insert_tx_check U fuel t d blk) false ;;
     (if ex then Ret tt else
-     for_each (tx_creds d) (fun c =>
-       add_credit t d (match blk with None => None | Some (h, b, _) => Some (h, b) end) (fst c) (snd c)))
+     for_each (tx_creds d) (fun c => call "" (add_credit t d (blk_of blk) (fst c) (snd c))))
   end.
 
 (** the same notification applied again through the store API without the
@@ -226,21 +327,17 @@ Definition redeliver_tx (U : universe) (fuel : nat) (t : Z) (blk : option (Z * Z
   match U !! t with
   | None => Fail eData
   | Some d =>
-    (match blk with
-     | None => insert_mempool t d
-     | Some (h, b, bt) => insert_mined U fuel t d h b bt
-     end) ;;;
-    for_each (tx_creds d) (fun c =>
-      add_credit t d (match blk with None => None | Some (h, b, _) => Some (h, b) end) (fst c) (snd c))
+    call "" (insert_tx U fuel t d blk) ;;;
+    for_each (tx_creds d) (fun c => call "" (add_credit t d (blk_of blk) (fst c) (snd c)))
   end.
 
-(** tx.go rollback, the part for one transaction of a detached block.
+(** rollback, the part for one transaction of a detached block.
     [acc] = (running mined balance, outputs of removed coinbase transactions). *)
 Definition rollback_tx (U : universe) (h b : Z) (acc : Z * list key) (t : Z) : prog (Z * list key) :=
   rv <- get bTxRecords [t; h; b] ;;
   (match rv, U !! t with
    | Some _, Some d =>
-     del bTxRecords [t; h; b] ;;;
+     call "wtxmgr:(*Store).rollback>deleteTxRecord" (delete_tx_record [t; h; b]) ;;;
      (if tx_coinbase d then
         fold_prog (indexed (tx_outs d)) acc (fun a e =>
           let '(i, amt) := e in
@@ -250,26 +347,28 @@ Definition rollback_tx (U : universe) (h b : Z) (acc : Z * list key) (t : Z) : p
            | None => Ret (fst a, cbc)
            | Some _ =>
              u <- get bUnspent [t; i] ;;
-             (match u with Some _ => del bUnspent [t; i] | None => Ret tt end) ;;;
-             del bCredits [t; h; b; i] ;;;
+             (match u with
+              | Some _ => call "wtxmgr:(*Store).rollback>deleteRawUnspent" (delete_raw_unspent [t; i])
+              | None => Ret tt
+              end) ;;;
+             call "wtxmgr:(*Store).rollback>deleteRawCredit" (delete_raw_credit [t; h; b; i]) ;;;
              Ret (match u with Some _ => fst a - amt | None => fst a end, cbc)
            end))
       else
-        put bUnmined [t] [t] ;;;
+        call "wtxmgr:(*Store).rollback>putRawUnmined" (put_raw_unmined t) ;;;
         bal1 <- fold_prog (indexed (tx_ins d)) (fst acc) (fun bal e =>
                   let '(i, (pt, pi)) := e in
-                  put_unmined_input [pt; pi] t ;;;
+                  call "wtxmgr:(*Store).rollback>putRawUnminedInput" (put_raw_unmined_input [pt; pi] t) ;;;
                   dv <- get bDebits [t; h; b; i] ;;
                   (match dv with
                    | None => Ret bal
                    | Some dvl =>
                      let ck := tl dvl in
-                     cv <- get bCredits ck ;;
-                     (match cv with Some v => put bCredits ck (unspend_val v) | None => Ret tt end) ;;;
-                     del bDebits [t; h; b; i] ;;;
-                     let amt := match cv with Some v => hd 0 v | None => 0 end in
+                     amt <- Call "wtxmgr:(*Store).rollback>unspendRawCredit" (unspend_raw_credit ck) 0 ;;
+                     call "wtxmgr:(*Store).rollback>deleteRawDebit" (delete_raw_debit [t; h; b; i]) ;;;
                      (if amt =? 0 then Ret bal else
-                      put bUnspent [pt; pi] (match ck with [_; ch; cb; _] => [ch; cb] | _ => [] end) ;;;
+                      call "wtxmgr:(*Store).rollback>putRawUnspent"
+                           (put_raw_unspent [pt; pi] (match ck with [_; ch; cb; _] => [ch; cb] | _ => [] end)) ;;;
                       Ret (bal + amt))
                    end)) ;;
         bal2 <- fold_prog (indexed (tx_outs d)) bal1 (fun bal e =>
@@ -278,11 +377,14 @@ Definition rollback_tx (U : universe) (h b : Z) (acc : Z * list key) (t : Z) : p
                   (match cv with
                    | None => Ret bal
                    | Some v =>
-                     put bUnminedCredits [t; i] [hd 0 v; nth 2 v 0] ;;;
-                     del bCredits [t; h; b; i] ;;;
+                     call "wtxmgr:(*Store).rollback>putRawUnminedCredit"
+                          (put_raw_unmined_credit [t; i] [hd 0 v; nth 2 v 0]) ;;;
+                     call "wtxmgr:(*Store).rollback>deleteRawCredit" (delete_raw_credit [t; h; b; i]) ;;;
                      u <- get bUnspent [t; i] ;;
                      (match u with
-                      | Some _ => del bUnspent [t; i] ;;; Ret (bal - oamt)
+                      | Some _ =>
+                        call "wtxmgr:(*Store).rollback>deleteRawUnspent" (delete_raw_unspent [t; i]) ;;;
+                        Ret (bal - oamt)
                       | None => Ret bal
                       end)
                    end)) ;;
@@ -290,7 +392,7 @@ Definition rollback_tx (U : universe) (h b : Z) (acc : Z * list key) (t : Z) : p
    | _, _ => Fail eData
    end).
 
-Definition rollback (U : universe) (fuel : nat) (height : Z) : prog unit :=
+Definition rollback_inner (U : universe) (fuel : nat) (height : Z) : prog unit :=
   bal <- get_balance ;;
   blks <- Read (fun s => sort_desc (filter (fun e => height <=? fst e)
                   (map (fun e => (hd 0 (fst e), snd e)) (map_to_list (bucket_of s bBlocks))))) ;;
@@ -299,15 +401,25 @@ Definition rollback (U : universe) (fuel : nat) (height : Z) : prog unit :=
            | b :: _ :: txs => fold_prog txs a (rollback_tx U (fst e) b)
            | _ => Fail eData
            end) ;;
-  for_each blks (fun e => del bBlocks [fst e]) ;;;
+  for_each blks (fun e => call "wtxmgr:(*Store).rollback>deleteBlockRecord" (delete_block_record (fst e))) ;;;
   for_each (snd acc) (fun op =>
     sp <- get bUnminedInputs op ;;
     for_each (default [] sp) (fun x =>
       v <- get bUnmined [x] ;;
-      (match v with None => Ret tt | Some _ => remove_conflict U fuel x end))) ;;;
-  put bRoot [0] [fst acc].
+      (match v with
+       | None => Ret tt
+       | Some _ => call "wtxmgr:(*Store).rollback>(*Store).removeConflict" (remove_conflict U fuel x)
+       end))) ;;;
+  call "wtxmgr:(*Store).rollback>putMinedBalance" (put_mined_balance (fst acc)).
 
-(** tx.go LockOutput / UnlockOutput / DeleteExpiredLockedOutputs *)
+Definition rollback (U : universe) (fuel : nat) (height : Z) : prog unit :=
+  call "wtxmgr:(*Store).Rollback>(*Store).rollback" (rollback_inner U fuel height).
+
+(** RemoveUnminedTx *)
+Definition remove_unmined_tx (U : universe) (fuel : nat) (t : Z) : prog unit :=
+  call "wtxmgr:(*Store).RemoveUnminedTx>(*Store).removeConflict" (remove_conflict U fuel t).
+
+(** LockOutput / UnlockOutput / DeleteExpiredLockedOutputs *)
 Definition is_known_output (op : key) : prog bool :=
   Read (fun s => isSome (lookup2 s bUnminedCredits op) || isSome (lookup2 s bUnspent op)).
 Definition locked_by (now : Z) (op : key) : prog (option Z) :=
@@ -325,8 +437,7 @@ Definition lock_output (now id : Z) (op : key) (dur : Z) : prog Z :=
   (if negb known then Fail eUnknownOutput else
    l <- locked_by now op ;;
    (if match l with Some id' => negb (id' =? id) | None => false end then Fail eAlreadyLocked else
-    create_bucket_if_not_exists bLocked ;;;
-    put bLocked op [id; trunc_sec (now + dur)] ;;;
+    call "wtxmgr:(*Store).LockOutput>lockOutput" (lock_output_db op [id; trunc_sec (now + dur)]) ;;;
     Ret (now + dur))).
 
 Definition release_output (now id : Z) (op : key) : prog unit :=
@@ -335,7 +446,9 @@ Definition release_output (now id : Z) (op : key) : prog unit :=
    l <- locked_by now op ;;
    (match l with
     | None => Ret tt
-    | Some id' => if id' =? id then unlock_output op else Fail eUnlockNotAllowed
+    | Some id' =>
+      if id' =? id then call "wtxmgr:(*Store).UnlockOutput>unlockOutput" (unlock_output op)
+      else Fail eUnlockNotAllowed
     end)).
 
 Definition sweep_expired (now : Z) : prog unit :=
@@ -343,7 +456,36 @@ Definition sweep_expired (now : Z) : prog unit :=
                                                  | [_; exp] => negb (now <? exp)
                                                  | _ => false
                                                  end) (map_to_list (bucket_of s bLocked)))) ;;
-  for_each ex unlock_output.
+  for_each ex (fun op => call "wtxmgr:(*Store).DeleteExpiredLockedOutputs>unlockOutput" (unlock_output op)).
+
+(** Store.PutTxLabel: label id 0 = empty label, negative = too long *)
+Definition put_tx_label_db (t lid : Z) : prog unit :=
+  call "wtxmgr:PutTxLabel>db.Put" (put bLabels [t] [lid]).
+Definition put_tx_label (t lid : Z) : prog unit :=
+  if lid =? 0 then Fail eEmptyLabel else
+  if lid <? 0 then Fail eLabelTooLong else
+  call "wtxmgr:(*Store).PutTxLabel>db.CreateBucketIfNotExists" (create_bucket_if_not_exists bLabels) ;;;
+  call "wtxmgr:(*Store).PutTxLabel>PutTxLabel" (put_tx_label_db t lid).
+
+(** wtxmgr.Create (probed on a file that only holds the empty namespace
+    bucket [tx_fresh]; on an existing store it is refused) *)
+Definition tx_fresh : kv := {[ bRoot := ∅ ]}.
+Definition create_buckets : prog unit :=
+  for_each store_buckets (fun b => call "wtxmgr:createBuckets>db.CreateBucket" (create_bucket b)).
+Definition put_version : prog unit :=
+  call "wtxmgr:putVersion>db.Put" (put bRoot [1] []).
+Definition ns_empty : prog bool :=
+  Read (fun s => match map_to_list (bucket_of s bRoot) with [] => true | _ => false end
+                 && forallb (fun b => negb (isSome (s !! b))) store_buckets).
+Definition create_store : prog unit :=
+  e <- ns_empty ;;
+  (if negb e then Fail eAlreadyExists else
+   call "wtxmgr:createStore>putVersion" put_version ;;;
+   call "wtxmgr:createStore>db.Put" (put bRoot [2] []) ;;;
+   call "wtxmgr:createStore>db.Put" (put bRoot [0] [0]) ;;;
+   call "wtxmgr:createStore>createBuckets" create_buckets).
+Definition create : prog unit :=
+  call "wtxmgr:Create>createStore" create_store.
 
 (** ** Events (one per database transaction, as the harness drives the store) *)
 Inductive tx_event :=
@@ -355,7 +497,9 @@ Inductive tx_event :=
 | EvLease (id pt pi dur : Z)
 | EvRelease (id pt pi : Z)
 | EvSweep
-| EvTick (dt : Z).
+| EvTick (dt : Z)
+| EvLabel (t lid : Z)
+| EvCreate.                     (* wtxmgr.Create *)
 
 (** fuel for the spend-graph recursion: one more than the universe's size *)
 Definition fuel_of (U : universe) : nat := S (size U).
@@ -366,12 +510,14 @@ Definition tx_prog (U : universe) (now : Z) (e : tx_event) : prog unit :=
   | EvConfirm t h b bt => relevant_tx U (fuel_of U) t (Some (h, b, bt))
   | EvRedeliver t h b bt =>
     redeliver_tx U (fuel_of U) t (if h <? 0 then None else Some (h, b, bt))
-  | EvDisconnect h => rollback U (fuel_of U) h
-  | EvAbandon t => remove_conflict U (fuel_of U) t
-  | EvLease id pt pi dur => lock_output now id [pt; pi] dur ;;; Ret tt
-  | EvRelease id pt pi => release_output now id [pt; pi]
-  | EvSweep => sweep_expired now
+  | EvDisconnect h => call "" (rollback U (fuel_of U) h)
+  | EvAbandon t => call "" (remove_unmined_tx U (fuel_of U) t)
+  | EvLease id pt pi dur => Call "" (lock_output now id [pt; pi] dur) 0 ;;; Ret tt
+  | EvRelease id pt pi => call "" (release_output now id [pt; pi])
+  | EvSweep => call "" (sweep_expired now)
   | EvTick _ => Ret tt
+  | EvLabel t lid => call "" (put_tx_label t lid)
+  | EvCreate => call "" create
   end.
 
 (** The harness's driver turns the two "refusals" of a lease request into a
@@ -379,8 +525,103 @@ Definition tx_prog (U : universe) (now : Z) (e : tx_event) : prog unit :=
 Definition tx_refusal (c : Z) : bool :=
   (c =? eUnknownOutput) || (c =? eAlreadyLocked) || (c =? eUnlockNotAllowed).
 
-Definition tx_step (U : universe) (st : Z * kv) (e : tx_event) : Z * kv :=
+Definition tx_step (T : table) (U : universe) (st : Z * kv) (e : tx_event) : Z * kv :=
   match e with
   | EvTick dt => (fst st + dt, snd st)
-  | _ => (fst st, snd (update (tx_prog U (fst st) e) (snd st) None))
+  | _ => (fst st, snd (update T (tx_prog U (fst st) e) (snd st) None))
   end.
+
+(** ** The call sites each operation can reach (by Go function, composed as the
+    call graph composes them).  FaultSites.v proves [uses_only (tx_sites e)
+    (tx_prog U now e)]; Properties/C10.v decides [sites_ok T (tx_sites e)] on
+    the regenerated table, per operation. *)
+Definition S_remove_conflict : list site :=
+  ["wtxmgr:(*Store).removeConflict>(*Store).removeConflict";
+   "wtxmgr:(*Store).removeConflict>deleteRawUnminedCredit"; "wtxmgr:deleteRawUnminedCredit>db.Delete";
+   "wtxmgr:(*Store).removeConflict>deleteRawUnminedInput";
+   "wtxmgr:deleteRawUnminedInput>db.Delete"; "wtxmgr:deleteRawUnminedInput>db.Put";
+   "wtxmgr:(*Store).removeConflict>deleteRawUnmined"; "wtxmgr:deleteRawUnmined>db.Delete"].
+
+Definition S_insert_mempool : list site :=
+  ["wtxmgr:(*Store).insertMemPoolTx>putRawUnmined"; "wtxmgr:putRawUnmined>db.Put";
+   "wtxmgr:(*Store).insertMemPoolTx>putRawUnminedInput"; "wtxmgr:putRawUnminedInput>db.Put"].
+
+Definition S_unlock_output : list site := ["wtxmgr:unlockOutput>db.Delete"].
+
+Definition S_insert_mined : list site :=
+  ["wtxmgr:(*Store).insertMinedTx>putBlockRecord"; "wtxmgr:putBlockRecord>putRawBlockRecord";
+   "wtxmgr:putRawBlockRecord>db.Put"; "wtxmgr:(*Store).insertMinedTx>putRawBlockRecord";
+   "wtxmgr:(*Store).insertMinedTx>putTxRecord"; "wtxmgr:putTxRecord>db.Put";
+   "wtxmgr:(*Store).insertMinedTx>(*Store).updateMinedBalance";
+   "wtxmgr:(*Store).updateMinedBalance>spendCredit"; "wtxmgr:spendCredit>putRawCredit"; "wtxmgr:putRawCredit>db.Put";
+   "wtxmgr:(*Store).updateMinedBalance>putDebit"; "wtxmgr:putDebit>db.Put";
+   "wtxmgr:(*Store).updateMinedBalance>deleteRawUnspent"; "wtxmgr:deleteRawUnspent>db.Delete";
+   "wtxmgr:(*Store).updateMinedBalance>putUnspentCredit"; "wtxmgr:putUnspentCredit>putRawCredit";
+   "wtxmgr:(*Store).updateMinedBalance>putUnspent"; "wtxmgr:putUnspent>db.Put";
+   "wtxmgr:(*Store).updateMinedBalance>putMinedBalance"; "wtxmgr:putMinedBalance>db.Put";
+   "wtxmgr:(*Store).insertMinedTx>(*Store).deleteUnminedTx";
+   "wtxmgr:(*Store).deleteUnminedTx>deleteRawUnminedInput"; "wtxmgr:(*Store).deleteUnminedTx>deleteRawUnminedCredit";
+   "wtxmgr:(*Store).deleteUnminedTx>deleteRawUnmined";
+   "wtxmgr:(*Store).insertMinedTx>(*Store).removeDoubleSpends";
+   "wtxmgr:(*Store).removeDoubleSpends>(*Store).removeConflict";
+   "wtxmgr:(*Store).insertMinedTx>unlockOutput"] ++ S_unlock_output ++ S_remove_conflict.
+
+Definition S_add_credit (mined : bool) : list site :=
+  "wtxmgr:(*Store).AddCredit>(*Store).addCredit" ::
+  (if mined then
+     ["wtxmgr:(*Store).addCredit>putRawCredit"; "wtxmgr:putRawCredit>db.Put";
+      "wtxmgr:(*Store).addCredit>putMinedBalance"; "wtxmgr:putMinedBalance>db.Put";
+      "wtxmgr:(*Store).addCredit>putUnspent"; "wtxmgr:putUnspent>db.Put"]
+   else ["wtxmgr:(*Store).addCredit>putRawUnminedCredit"; "wtxmgr:putRawUnminedCredit>db.Put"]).
+
+Definition S_insert_check (mined : bool) : list site :=
+  if mined then "wtxmgr:(*Store).InsertTxCheckIfExists>(*Store).insertMinedTx" :: S_insert_mined
+  else "wtxmgr:(*Store).InsertTxCheckIfExists>(*Store).insertMemPoolTx" :: S_insert_mempool.
+
+Definition S_rollback : list site :=
+  ["wtxmgr:(*Store).Rollback>(*Store).rollback";
+   "wtxmgr:(*Store).rollback>deleteTxRecord"; "wtxmgr:deleteTxRecord>db.Delete";
+   "wtxmgr:(*Store).rollback>deleteRawUnspent"; "wtxmgr:deleteRawUnspent>db.Delete";
+   "wtxmgr:(*Store).rollback>deleteRawCredit"; "wtxmgr:deleteRawCredit>db.Delete";
+   "wtxmgr:(*Store).rollback>putRawUnmined"; "wtxmgr:putRawUnmined>db.Put";
+   "wtxmgr:(*Store).rollback>putRawUnminedInput"; "wtxmgr:putRawUnminedInput>db.Put";
+   "wtxmgr:(*Store).rollback>unspendRawCredit"; "wtxmgr:unspendRawCredit>db.Put";
+   "wtxmgr:(*Store).rollback>deleteRawDebit"; "wtxmgr:deleteRawDebit>db.Delete";
+   "wtxmgr:(*Store).rollback>putRawUnspent"; "wtxmgr:putRawUnspent>db.Put";
+   "wtxmgr:(*Store).rollback>putRawUnminedCredit"; "wtxmgr:putRawUnminedCredit>db.Put";
+   "wtxmgr:(*Store).rollback>deleteBlockRecord"; "wtxmgr:deleteBlockRecord>db.Delete";
+   "wtxmgr:(*Store).rollback>(*Store).removeConflict";
+   "wtxmgr:(*Store).rollback>putMinedBalance"; "wtxmgr:putMinedBalance>db.Put"] ++ S_remove_conflict.
+
+Definition S_create : list site :=
+  ["wtxmgr:Create>createStore"; "wtxmgr:createStore>putVersion"; "wtxmgr:putVersion>db.Put";
+   "wtxmgr:createStore>db.Put"; "wtxmgr:createStore>createBuckets"; "wtxmgr:createBuckets>db.CreateBucket"].
+
+Definition tx_sites (e : tx_event) : list site :=
+  "" ::   (* the harness's own calls of the API *)
+  match e with
+  | EvSeen _ => S_insert_check false ++ S_add_credit false
+  | EvConfirm _ _ _ _ => S_insert_check true ++ S_add_credit true
+  | EvRedeliver _ _ _ _ =>
+    "wtxmgr:(*Store).InsertTx>(*Store).InsertTxCheckIfExists" ::
+    S_insert_check false ++ S_insert_check true ++ S_add_credit false ++ S_add_credit true
+  | EvDisconnect _ => S_rollback
+  | EvAbandon _ => "wtxmgr:(*Store).RemoveUnminedTx>(*Store).removeConflict" :: S_remove_conflict
+  | EvLease _ _ _ _ =>
+    ["wtxmgr:(*Store).LockOutput>lockOutput"; "wtxmgr:lockOutput>db.CreateBucketIfNotExists"; "wtxmgr:lockOutput>db.Put"]
+  | EvRelease _ _ _ => "wtxmgr:(*Store).UnlockOutput>unlockOutput" :: S_unlock_output
+  | EvSweep => "wtxmgr:(*Store).DeleteExpiredLockedOutputs>unlockOutput" :: S_unlock_output
+  | EvTick _ => []
+  | EvLabel _ _ =>
+    ["wtxmgr:(*Store).PutTxLabel>db.CreateBucketIfNotExists"; "wtxmgr:(*Store).PutTxLabel>PutTxLabel";
+     "wtxmgr:PutTxLabel>db.Put"]
+  | EvCreate => S_create
+  end.
+
+(** one representative event per constructor (the site list does not depend
+    on the arguments), with the operation's name *)
+Definition tx_kinds : list (string * tx_event) :=
+  [("InsertTx(unmined)+AddCredit", EvSeen 0); ("InsertTx(mined)+AddCredit", EvConfirm 0 0 0 0);
+   ("InsertTx+AddCredit(again)", EvRedeliver 0 0 0 0); ("Rollback", EvDisconnect 0);
+   ("RemoveUnminedTx", EvAbandon 0); ("LockOutput", EvLease 0 0 0 0); ("UnlockOutput", EvRelease 0 0 0);
+   ("DeleteExpiredLockedOutputs", EvSweep); ("PutTxLabel", EvLabel 0 0); ("wtxmgr.Create", EvCreate)].
